@@ -558,9 +558,7 @@ double *_vnacal_new_solve_calc_weights(vnacal_new_solve_state_t *vnssp)
 	_vnacal_error(vcp, VNAERR_SYSTEM, "calloc: %s", strerror(errno));
 	return NULL;
     }
-    for (int sindex = 0; sindex < vnp->vn_systems; ++sindex) {
-	int k = 0;
-
+    for (int sindex = 0, k = 0; sindex < vnp->vn_systems; ++sindex) {
 	vs_start_system(vnssp, sindex);
 	while (vs_next_equation(vnssp)) {
 	    vnacal_new_equation_t *vnep = vnssp->vnss_vnep;
@@ -575,10 +573,10 @@ double *_vnacal_new_solve_calc_weights(vnacal_new_solve_state_t *vnssp)
 	    weight2 += noise * noise;
 	    w_vector[k++] = 1.0 / sqrt(weight2);
 	}
-#ifdef DEBUG
-	print_rmatrix("w", w_vector, k, 1);
-#endif /* DEBUG */
     }
+#ifdef DEBUG
+    print_rmatrix("w", w_vector, vnp->vn_equations, 1);
+#endif /* DEBUG */
     return w_vector;
 }
 
